@@ -485,9 +485,9 @@ class LRTable:
                         else 0
                     )
                     +
-                    # Account for `\b` at the beginning and end of keyword regex
+                    # Keyword regex recognizer is named by the keyword text
                     (
-                        (len(symbol.recognizer._regex) - 4)
+                        len(symbol.recognizer.name)
                         if type(symbol.recognizer) is RegExRecognizer and symbol.keyword
                         else 0
                     )
